@@ -175,13 +175,11 @@ theorem step_inv {s s' : Sys} {ev : Ev} (inv : Inv s) (hs : step s ev = some s')
           split at he
           · rcases List.mem_append.mp he with h1 | h1
             · exact hold e h1
-            · simp only [List.mem_singleton] at h1; subst h1
-              refine ⟨Or.inl ⟨b, hb, rfl⟩, hsafe, ?_⟩
-              intro p hp
-              simp only [entryOf] at hp
-              split at hp
-              · cases hp; rfl
-              · cases hp
+            · obtain ⟨e1, e2, _, e4⟩ := mem_entriesOf h1
+              refine ⟨?_, ?_, ?_⟩
+              · rw [e1, e2]; exact Or.inl ⟨b, hb, rfl⟩
+              · rw [e1]; exact hsafe
+              · intro p hp; rw [e2]; exact e4 p hp
           · exact hold e he
         · exact hold e he
       · intro c' k' hc' hk'; cases hc'
@@ -381,6 +379,9 @@ theorem step_inv {s s' : Sys} {ev : Ev} (inv : Inv s) (hs : step s ev = some s')
       exact ⟨hS, fun h' => base h', inv.rets, inv.np⟩
   | consSetFiles k file multi =>
     obtain ⟨c, hc, hpub, hpend, rfl⟩ := inv_consSetFiles hs
+    exact ⟨hS, fun h' => base h', inv.rets, inv.np⟩
+  | consSetFilesM k file extra =>
+    obtain ⟨c, hc, hpub, hpend, rfl⟩ := inv_consSetFilesM hs
     exact ⟨hS, fun h' => base h', inv.rets, inv.np⟩
   | consPutBack k =>
     obtain ⟨c, b, hc, hpub, hpend, hf, hd, rfl⟩ := inv_consPutBack hs
